@@ -101,6 +101,8 @@ structure Part where
 structure DefName where
   name : Nat
   loc : Option Nat
+  /-- the refers-to text (`xlsxDefinedName.Data`), bytes -/
+  data : Name
   deriving DecidableEq, Repr
 
 structure Rel where
@@ -427,6 +429,56 @@ def copySheet (s : St) (frm to : Int) : Except Err St :=
     | .error e => .error e
     | .ok (p, _) => .ok { s with parts := partSet s.parts p { w with sel := false } }
 
+/-! ## the refers-to text of defined names under SetSheetName (adjust.go adjustRangeSheetName) -/
+
+/-- `strings.Split(s, sep)` for a one-byte separator: at least one piece, pieces never contain `c` -/
+def splitOn (c : Char) : List Char → List (List Char)
+  | [] => [[]]
+  | x :: xs =>
+    if x = c then [] :: splitOn c xs
+    else match splitOn c xs with
+      | h :: t => (x :: h) :: t
+      | [] => [[x]]
+
+/-- `strings.Join(parts, sep)` -/
+def joinWith (c : Char) : List (List Char) → List Char
+  | [] => []
+  | [p] => p
+  | p :: q :: r => p ++ c :: joinWith c (q :: r)
+
+/-- `HasPrefix(part, "'") && HasSuffix(part, "'")` -/
+def isQuoted (part : Name) : Bool := part.head? == some quoteChar && part.getLast? == some quoteChar
+
+/-- `TrimPrefix(TrimSuffix(part, "'"), "'")` -/
+def unquote (part : Name) : Name :=
+  let p1 := if part.getLast? == some quoteChar then part.dropLast else part
+  if p1.head? == some quoteChar then p1.drop 1 else p1
+
+/-- one `!`-separated component: compared with `source` without its quotes, renamed when equal, and
+(since the repair) quoted again exactly when it was quoted -/
+def adjustPart (source target : Name) (part : Name) : Name :=
+  let q := isQuoted part
+  let inner := if q then unquote part else part
+  let renamed := if inner == source then target else inner
+  if q && (Facts.C16.renameKeepsQuotes || inner == source) then quoteChar :: renamed ++ [quoteChar] else renamed
+
+/-- the three-level structure `adjustRangeSheetName` works on: `,` then `:` then `!` -/
+def parseRef (data : Name) : List (List (List Name)) :=
+  (splitOn ',' data).map fun cellRef => (splitOn ':' cellRef).map fun rangeRef => splitOn '!' rangeRef
+
+def renderRef (t : List (List (List Name))) : Name :=
+  joinWith ',' (t.map fun cellRef => joinWith ':' (cellRef.map fun rangeRef => joinWith '!' rangeRef))
+
+/-- `adjustRangeSheetName(rng, source, target)` -/
+def adjustRange (data source target : Name) : Name :=
+  renderRef ((parseRef data).map fun cellRef => cellRef.map fun rangeRef => rangeRef.map (adjustPart source target))
+
+/-- the loop over `wb.DefinedNames.DefinedName` at the end of `SetSheetName` -/
+def adjustDefs (defs : List DefName) (source target : Name) : List DefName :=
+  if Facts.C16.renameRewritesDefinedNames then
+    defs.map fun d => { d with data := adjustRange d.data source target }
+  else defs
+
 /-! ## SetSheetName -/
 
 /-- `SetSheetName` -/
@@ -445,8 +497,9 @@ def setSheetName (s : St) (source target : Name) : Except Err St :=
         | none => .error .gap
         | some p => .ok { s with
             sheets := s.sheets.map fun v => if v.name == source then { v with name := target } else v
-            sheetMap := mapErase (mapSet s.sheetMap target p) source }
-      else .ok s
+            sheetMap := mapErase (mapSet s.sheetMap target p) source
+            defs := adjustDefs s.defs source target }
+      else .ok { s with defs := adjustDefs s.defs source target }
 
 /-! ## SetSheetVisible -/
 
@@ -494,13 +547,14 @@ def getDefinedNameScope (s : St) (scope : Name) : Except Err (Option Nat) :=
 /-- `SetDefinedName{Name: "dn_<name>", RefersTo: const, Scope: scope}`: the scope is resolved once to a
 local sheet id, a name already present in that scope (names compared case-insensitively; the
 transcript's names `dn_<k>` differ in more than case) is a duplicate -/
-def setDefinedName (s : St) (name : Nat) (scope : Name) : Except Err St :=
+def setDefinedName (s : St) (name : Nat) (scope : Name) (data : Name) : Except Err St :=
+  if data = [] then .error .param else      -- `definedName.RefersTo == ""`
   if !Facts.C16.definedNameScopeResolved then .error .gap else
   match getDefinedNameScope s scope with
   | .error e => .error e
   | .ok loc =>
     if s.defs.any (fun d => d.loc == loc && d.name == name) then .error .dupDefName
-    else .ok { s with defs := s.defs ++ [⟨name, loc⟩] }
+    else .ok { s with defs := s.defs ++ [⟨name, loc, data⟩] }
 
 /-- `DeleteDefinedName{Name: "dn_<name>", Scope: scope}`: the first name with that (exact) name in the
 resolved scope is removed; an unresolvable scope or no such name is `ErrDefinedNameScope` -/
@@ -538,7 +592,7 @@ def observe (s : St) : St :=
 inductive Op
   | new (n : Name) | delete (n : Name) | copy (frm to : Int) | move (src tgt : Name)
   | rename (src tgt : Name) | visible (n : Name) (v vh : Bool) | active (i : Int)
-  | group (ns : List Name) | ungroup | defname (k : Nat) (scope : Name) | deldef (k : Nat) (scope : Name)
+  | group (ns : List Name) | ungroup | defname (k : Nat) (scope : Name) (data : Name) | deldef (k : Nat) (scope : Name)
   | setcell (n : Name) (v : Nat)
   | save | observe
   deriving Repr
@@ -568,7 +622,7 @@ def step (s : St) : Op → St × Option Err
   | .ungroup => match ungroupSheets s with
     | .ok s' => (s', none)
     | .error e => (s, some e)
-  | .defname k sc => match setDefinedName s k sc with
+  | .defname k sc dt => match setDefinedName s k sc dt with
     | .ok s' => (s', none)
     | .error e => (s, some e)
   | .deldef k sc => match deleteDefinedName s k sc with
@@ -723,7 +777,7 @@ def step (b : Book) : Op → Book × Bool
     | some b' => (b', true)
     | none => (b, false)
   | .ungroup => (ungroup b, true)
-  | .defname _ _ => (b, true)
+  | .defname _ _ _ => (b, true)
   | .deldef _ _ => (b, true)
   | .setcell n v => match setCell b n v with
     | some b' => (b', true)
